@@ -40,6 +40,7 @@ type vWk struct {
 
 type vProbe struct {
 	on, booted, ok bool
+	rb             bool // the answer says "broken"
 	list           map[int]bool
 }
 
@@ -59,6 +60,7 @@ type vSim struct {
 	exists   map[int]bool
 	booted   map[int]bool
 	broken   map[int]bool
+	rb       map[int]bool // VMs whose probe answers say "broken"
 	ib       map[int]string
 	q        map[int]*vEnt // cache
 	clock    int64         // logical time: one tick per recorded instant
@@ -83,7 +85,7 @@ var vSimIT = test.InstanceType(1)
 
 func vNewSim(nc, nw int, init []string) *vSim {
 	s := &vSim{nc: nc, nw: nw, api: map[int]*vEnt{}, procs: map[int]map[int]bool{}, exists: map[int]bool{},
-		booted: map[int]bool{}, broken: map[int]bool{}, ib: map[int]string{}, arrived: make(chan struct{}, 1000)}
+		booted: map[int]bool{}, broken: map[int]bool{}, rb: map[int]bool{}, ib: map[int]string{}, arrived: make(chan struct{}, 1000)}
 	for c := 1; c <= nc; c++ {
 		st := "Queued"
 		if c-1 < len(init) {
